@@ -131,6 +131,12 @@ func ReadFromSRT(i io.Reader) (o *Subtitles, err error) {
 	for len(s.Lines) > 0 && s.Lines[len(s.Lines)-1].String() == "" {
 		s.Lines = s.Lines[:len(s.Lines)-1]
 	}
+
+	// Scanning stopped on an error (failing reader or line too long)
+	if err = scanner.Err(); err != nil {
+		err = fmt.Errorf("astisub: scanning failed: %w", err)
+		return
+	}
 	return
 }
 
